@@ -102,10 +102,43 @@ fn nd_pair(dmin: usize, dmax: usize, nmax: usize) -> BoxedStrategy<(Vec<u64>, Ve
         .boxed()
 }
 
+/// `nd_pair` with one pair in eight made long: the numerator (and, half of the time, the divisor)
+/// gets a run of generated limbs inserted below its leading limbs, up to 40 limbs in total
+/// ("every combination of slice lengths" includes lengths at which a kernel could switch
+/// strategy).
+fn nd_pair_long(dmin: usize, dmax: usize, nmax: usize) -> BoxedStrategy<(Vec<u64>, Vec<u64>, u64)> {
+    (nd_pair(dmin, dmax, nmax), 0u8..8, 13usize..=40, limbs(30), any::<bool>(), 0u8..3)
+        .prop_map(move |((mut n, mut d, class), sel, target, fill, also_d, kind)| {
+            if sel != 0 || nmax < MAXLEN {
+                return (n, d, class);
+            }
+            let word = |i: usize| match kind {
+                0 => 0,
+                1 => u64::MAX,
+                _ => fill[i % fill.len()],
+            };
+            let stretch = |v: &mut Vec<u64>, to: usize| {
+                if v.len() >= to || v.is_empty() {
+                    return;
+                }
+                let keep_top = v.len().min(3);
+                let at = v.len() - keep_top;
+                let extra: Vec<u64> = (0..to - v.len()).map(word).collect();
+                v.splice(at..at, extra);
+            };
+            if also_d && dmax >= MAXLEN {
+                stretch(&mut d, target / 2);
+            }
+            stretch(&mut n, target);
+            (n, d, class)
+        })
+        .boxed()
+}
+
 // ---------------------------------------------------------------- algorithms::div
 
 fn strat_div(_: usize) -> BoxedStrategy<Case> {
-    let nonzero = (nd_pair(1, MAXLEN, MAXLEN), 0usize..3, 0usize..3).prop_map(|((mut n, mut dv, class), pn, pd)| {
+    let nonzero = (nd_pair_long(1, MAXLEN, MAXLEN), 0usize..3, 0usize..3).prop_map(|((mut n, mut dv, class), pn, pd)| {
         let nl = (n.len() + pn).min(MAXLEN).max(n.len());
         n.resize(nl, 0);
         let dl = (dv.len() + pd).min(MAXLEN).max(dv.len());
@@ -539,7 +572,7 @@ fn main() {
     }
     let spec = PropSpec {
         id: "C14",
-        rule_text: "slice-level generators: numerator/divisor lengths 0..=12 independently with zero padding at the high end, divisors of every effective length with 0..63 leading zero bits, numerators from 5 classes (independent boundary-alphabet limbs; q*d+r with extreme q,d,r; copying the divisor's leading limbs with perturbed lower limbs, equal and slightly smaller top window; powers of two aligned to a limb top after the normalising shift, -1, +1, with low noise); one divisor in six (>= 2 limbs) has normalised leading 128 bits solved onto the tie of reciprocal_2's last correction step (p == d1 after the carry; vcore::recip bisection) or one beside it; complete enumeration of all numerators of 1..=4 limbs x divisors of 1..=3 limbs over {0,1,2^63,MAX-1,MAX} for algorithms::div; each specialised kernel only on its documented domain; reciprocals on all 256 table rows (start, start+1, end, end-1, 3 scattered) x 6 low limbs, enumerated, plus generated, half of the generated reciprocal_2 arguments solved onto the last correction step's tie (classes recip2:tie_*). Oracle: num-bigint / u128 quotient and remainder; floor((2^128-1)/d)-2^64 and floor((2^192-1)/d)-2^64. Non-trivial: divisor >= 2 limbs after trimming and non-zero quotient (div), >= 2 numerator limbs (n-by-1), non-zero quotient (n-by-2, n-by-m), every case for the fixed-size kernels and reciprocals (all inputs are normalised by construction); distinct by inputs. div_3x2_ref is excluded: its own doc comment says it is off by one.",
+        rule_text: "slice-level generators: numerator/divisor lengths 0..=12 independently (one pair in eight of the `div` rule stretched to up to 40 / 20 limbs) with zero padding at the high end, divisors of every effective length with 0..63 leading zero bits, numerators from 5 classes (independent boundary-alphabet limbs; q*d+r with extreme q,d,r; copying the divisor's leading limbs with perturbed lower limbs, equal and slightly smaller top window; powers of two aligned to a limb top after the normalising shift, -1, +1, with low noise); one divisor in six (>= 2 limbs) has normalised leading 128 bits solved onto the tie of reciprocal_2's last correction step (p == d1 after the carry; vcore::recip bisection) or one beside it; complete enumeration of all numerators of 1..=4 limbs x divisors of 1..=3 limbs over {0,1,2^63,MAX-1,MAX} for algorithms::div; each specialised kernel only on its documented domain; reciprocals on all 256 table rows (start, start+1, end, end-1, 3 scattered) x 6 low limbs, enumerated, plus generated, half of the generated reciprocal_2 arguments solved onto the last correction step's tie (classes recip2:tie_*). Oracle: num-bigint / u128 quotient and remainder; floor((2^128-1)/d)-2^64 and floor((2^192-1)/d)-2^64. Non-trivial: divisor >= 2 limbs after trimming and non-zero quotient (div), >= 2 numerator limbs (n-by-1), non-zero quotient (n-by-2, n-by-m), every case for the fixed-size kernels and reciprocals (all inputs are normalised by construction); distinct by inputs. div_3x2_ref is excluded: its own doc comment says it is off by one.",
         assumptions: vec![
             "num-bigint and u128 division are correct (oracle)",
             "div_nxm_normalized is exercised only on the shape len(numerator)=len(divisor)+len(quotient), len(quotient)>=1, the shape used by the repository's own tests (DESIGN 4 C14)",
